@@ -190,3 +190,13 @@ Theorem C01_source_pipeline_entry_is_model : forall (rg : RG) (rfail : string ->
   = run_pipeline_inner rg rfail parser parse groups success failure s.
 Proof. exact gen_run_pipeline_is_model. Qed.
 Print Assumptions C01_source_pipeline_entry_is_model.
+
+(** closed form of the tie: at every fuel the engine is the ladder generated from the source, run
+    over the engine one level down — nothing is assumed about nested calls any more *)
+Theorem C01_source_engine_closed : forall fuel lib names groups success failure s,
+  names_of groups = Some names ->
+  gen_run_step_groups (run_step (run_groups fuel lib) (run_pipe fuel lib)) (run_groups fuel lib)
+                      (pipeline_of lib s) names success failure s
+  = run_groups (S fuel) lib groups success failure s.
+Proof. exact gen_engine_closed. Qed.
+Print Assumptions C01_source_engine_closed.
